@@ -38,21 +38,25 @@ def binop (op : String) (a o : Bits) : Option String :=
   | "eq" => some (fmtBool (a.ival == o.ival))
   | _ => none
 
-/-- one step of a mutating sequence -/
-def mutStep (b : Bits) (toks : List String) : Option (Except Err Bits) :=
+/-- one step of a mutating sequence, parsed into the model's `MutOp` (`none` = unparsable, `some (error)` = the
+    right-hand value could not be converted by `Bits(v)`) -/
+def parseMut? (toks : List String) : Option (Except Err Bits.MutOp) :=
   match toks with
-  | ["setint", i, v] => do let i ← parseInt? i; let v ← parseNat? v; pure (b.setInt i v)
+  | ["setint", i, v] => do let i ← parseInt? i; let v ← parseNat? v; pure (.ok (.setInt i v))
   | ["setslice", s, e, st, v] => do
       let s ← parseOptInt? s; let e ← parseOptInt? e; let st ← parseOptInt? st
       let v ← parseOperand? v
-      pure (v >>= fun v => b.setSlice s e st v)
+      pure (v.map fun v => .setSlice s e st v)
   | ["setlist", l, v] => do
       let l ← parseIntList? l; let v ← parseOperand? v
-      pure (v >>= fun v => b.setList l v)
-  | ["size", n] => do let n ← parseNat? n; pure (.ok (b.setSize n))
-  | ["zext", n] => do let n ← parseNat? n; pure (.ok (b.zeroextend n))
-  | ["sext", n] => do let n ← parseNat? n; pure (b.signextend n)
+      pure (v.map fun v => .setList l v)
+  | ["size", n] => do let n ← parseNat? n; pure (.ok (.setSize n))
+  | ["zext", n] => do let n ← parseNat? n; pure (.ok (.zeroextend n))
+  | ["sext", n] => do let n ← parseNat? n; pure (.ok (.signextend n))
   | _ => none
+
+def mutStep (b : Bits) (toks : List String) : Option (Except Err Bits) :=
+  (parseMut? toks).map fun op => op >>= b.applyOp
 
 def runSeq (b : Bits) : List (List String) → List String → Option (List String)
   | [], acc => some acc.reverse
@@ -111,7 +115,8 @@ def model (op : String) (args : List String) : Option String :=
       | .ok o => binop op a o
   | "bits.rbinop", [op, i, a] => do
       -- int on the left: __radd__ etc. delegate to self op int; __rsub__ is Bits(lvalue)-self
-      let i ← parseNat? i; let a ← parseBits? a
+      let i ← parseInt? i; let a ← parseBits? a
+      let i := i.natAbs   -- `Bits(lvalue)` takes abs() first
       match op with
       | "sub" => pure (fmtBits (a.rsub i))
       | "add" | "and" | "or" | "xor" => binop op a (Bits.ofNat i)
@@ -144,6 +149,33 @@ def model (op : String) (args : List String) : Option String :=
       let a ← parseBits? a
       let r ← runSeq a (splitBar rest) []
       pure (";".intercalate r)
+  -- C08 algebraic laws evaluated on the model (the plugin evaluates the same expression on the real code)
+  | "bits.law.addneg", [a] => do let a ← parseBits? a; pure (fmtBits (a.add a.neg))
+  | "bits.law.rolror", [a, k] => do
+      let a ← parseBits? a; let k ← parseNat? k; pure (fmtE fmtBits (a.ror k >>= fun r => r.rol k))
+  | "bits.law.rorrol", [a, k] => do
+      let a ← parseBits? a; let k ← parseNat? k; pure (fmtE fmtBits (a.rol k >>= fun r => r.ror k))
+  | "bits.law.splitconcat", [a, k, be] => do
+      let a ← parseBits? a; let k ← parseNat? k; let be ← parseBool? be
+      pure (fmtE fmtBits (a.split k be >>= fun l => Bits.concatList l be))
+  | "bits.law.concatsplit", [a, o] => do
+      let a ← parseBits? a; let o ← parseBits? o
+      pure (fmtE fmtBitsList ((a.concat o).split a.size))
+  | "bits.law.concatslices", [a, o] => do
+      let a ← parseBits? a; let o ← parseBits? o
+      let c := a.concat o
+      pure (fmtE fmtBitsList (do
+        let x ← c.getSlice none (some a.size) none
+        let y ← c.getSlice (some a.size) none none
+        pure [x, y]))
+  -- Model.Py builtins compared with CPython directly
+  | "py.indices", [s, e, st, n] => do
+      let s ← parseOptInt? s; let e ← parseOptInt? e; let st ← parseOptInt? st; let n ← parseNat? n
+      pure (fmtE (fun (t : Int × Int × Int) => s!"{t.1},{t.2.1},{t.2.2}") (Py.sliceIndices s e st n))
+  | "py.range", [a, b, c] => do
+      let a ← parseInt? a; let b ← parseInt? b; let c ← parseInt? c
+      if c = 0 then pure "ERR" else pure (fmtIntList (Py.range a b c))
+  | "py.bitlength", [n] => do let n ← parseNat? n; pure (toString (Py.bitLength n))
   | _, _ => none
 
 def handle : Handler := fun op args => (model op args).map fun m => (m, "-")
